@@ -11,7 +11,6 @@ import (
 	"go/token"
 	"go/types"
 	"os"
-	"strings"
 	"unsafe"
 
 	"golang.org/x/tools/go/ssa"
@@ -1600,7 +1599,7 @@ func mapOrderIter(fr *frame, m *omap) iter {
 		return it
 	}
 	file := fr.i.prog.Fset.Position(fr.fn.Pos()).Filename
-	if strings.Contains(file, "zz_verif") || !strings.Contains(file, "/repo/") {
+	if !inRepo(file) {
 		return it
 	}
 	s.mapOrder--
